@@ -84,9 +84,11 @@ def mk(cfg, fs):
         return stim.SquareWaveFactory(fs, cfg['level'], cfg['freq'], cfg['duty'])
     if t == 'wavseq':
         f = stim.WavSequenceFactory(fs, wavseq_dir(), **_kw(cfg, {'norm': 'normalization'}))
-        # the class takes the files in directory-listing order: fix the order here so that runs are reproducible
-        f.wav_files.sort(key=lambda w: str(w.filename))
-        f.reset()
+        # the files are taken in SORTED order (since the repair recorded in known_findings.txt; directory-listing order
+        # depends on the file system): the same directory gives the same sequence everywhere
+        names = [str(w.filename) for w in f.wav_files]
+        if names != sorted(names):
+            raise AssertionError(f'WavSequenceFactory takes its files in directory-listing order: {[n.rsplit("/", 1)[-1] for n in names]}')
         return f
     if t == 'fixed':
         if cfg.get('cls') == 'click':
